@@ -19,6 +19,7 @@ import (
 	"fmt"
 	"strconv"
 	"strings"
+	"sync/atomic"
 	"time"
 
 	"k8s.io/client-go/tools/leaderelection"
@@ -64,7 +65,8 @@ type leaderElection struct {
 	// onStoppedLeading is called when a LeaderElector client stops leading
 	onStoppedLeading func()
 	// indicates whether this instance is leader
-	leader bool
+	// leader is written by the elector's callbacks and read by every request: accessed atomically
+	leader int32
 }
 
 // NewLeaderElection returns a LeaderElection based on resourcelock of backend.Backend
@@ -103,13 +105,13 @@ func (l *leaderElection) Campaign() {
 				l.metricCli.EmitGauge("leader.election.initial.version", version, metrics.Tag("addr", leaderAddr))
 				// TODO push this logic to on start leading call back
 				l.backend.SetCurrentRevision(version)
-				l.leader = true
+				atomic.StoreInt32(&l.leader, 1)
 				l.onStartedLeading(ctx)
 			},
 			OnStoppedLeading: func() {
 				// we can do cleanup here, or after the RunOrDie method
 				// returns
-				l.leader = false
+				atomic.StoreInt32(&l.leader, 0)
 				l.onStoppedLeading()
 				leaderAddr := l.GetLeaderInfo()
 				l.metricCli.EmitCounter("leader.election.lost", 1, metrics.Tag("addr", leaderAddr))
@@ -123,7 +125,7 @@ func (l *leaderElection) Campaign() {
 
 // IsLeader implements LeaderElection interface
 func (l *leaderElection) IsLeader() bool {
-	return l.leader
+	return atomic.LoadInt32(&l.leader) == 1
 }
 
 // GetLeaderInfo implements LeaderElection interface
